@@ -386,7 +386,9 @@ static void on_entry(struct task *t, struct user_regs_struct *regs) {
         t->forced = v;
         t->forcewin_call = 1;
     }
-    for (int i = 0; i < nrules && !t->inj; i++) {
+    for (int i = 0; i < nrules; i++) {
+        /* every rule counts every call it matches (also when an earlier rule already injects
+         * into this call), so that k means the same call index in all rules */
         struct rule *r = &rules[i];
         if (r->win[0] && strcmp(r->win, win_op)) continue;
         if (r->task && r->task != t->idx) continue;
@@ -394,6 +396,7 @@ static void on_entry(struct task *t, struct user_regs_struct *regs) {
         if (r->src && r->src != t->src) continue;
         r->count++;
         if (r->k && r->count != r->k) continue;
+        if (t->inj) continue;
         t->inj = r->mode ? r->mode : (t->nr == SYS_close ? 'p' : 's');
         t->forced = r->ret;
     }
